@@ -301,7 +301,6 @@ func ZZ_C10(shape int) {
 	verifhook.Canary()
 }
 
-
 // ZZ_C10Reverse: TransactionData.Reverse on 0..7 postings with arbitrary amounts is the
 // list in reverse order with the ends of every posting swapped; the original is untouched.
 func ZZ_C10Reverse(shape int) {
